@@ -7,11 +7,32 @@ GROW = {"push_back": "+1", "emplace_back": "+1", "insert": "+1", "emplace": "+1"
 SHRINK = {"erase": "-1", "pop_back": "-1"}
 
 
+_ALIAS = {}  # local reference / pointer aliases of the function being analysed: var id -> initialiser (set_fn)
+
+
+def set_fn(fn):
+    """member_root follows the reference / pointer locals of this function (`auto& list = *blocks; list.erase(...)`)"""
+    _ALIAS.clear()
+    from facts import walk as _walk
+    assigned = {x["l"]["id"] for x in _walk(fn.get("body") or {}) if x["k"] == "Assign" and is_node(x["l"]) and x["l"]["k"] == "Ref"}
+    for d in _walk(fn.get("body") or {}):
+        if d["k"] == "Decl":
+            for v in d.get("vars", []):
+                t = (v.get("ct") or v.get("t") or "").rstrip()
+                if is_node(v.get("init")) and v["id"] not in assigned and (t.endswith("&") or t.endswith("*")):
+                    _ALIAS[v["id"]] = v["init"]
+
+
 def member_root(e, owner=None):
-    """(member name, is_whole) for an lvalue rooted at this-><member> (through *, ->, [i], at())"""
+    """(member name, is_whole) for an lvalue rooted at this-><member> (through *, ->, [i], at(), local reference aliases)"""
     whole = True
+    hops = 0
     while is_node(e):
         k = e["k"]
+        if k == "Ref" and e.get("id") in _ALIAS and hops < 4:
+            e = _ALIAS[e["id"]]
+            hops += 1
+            continue
         if k == "Member" and e.get("mk", "field") == "field":
             b = e.get("base")
             if b is None or b["k"] == "This":
@@ -39,6 +60,7 @@ def member_root(e, owner=None):
 
 def length_ops(fn, owner, tables):
     """[(node, table, kind, arg)] kind in +1 -1 =0 =N(arg) =copy(arg) perm"""
+    set_fn(fn)
     out = []
     for n in walk(fn.get("body") or {}):
         if n["k"] == "Call" and n.get("ext") and is_node(n.get("recv")):
@@ -69,6 +91,7 @@ def length_ops(fn, owner, tables):
 
 
 def counter_ops(fn, owner, counters):
+    set_fn(fn)
     out = []
     for n in walk(fn.get("body") or {}):
         if n["k"] == "Unary" and n["op"] in ("++", "--"):
@@ -100,6 +123,7 @@ def counter_ops(fn, owner, counters):
 def guard_sig(F, fn, nodes, ignore_members=()):
     """node id -> frozenset of guard (key, pol) pairs in force at the node, ignoring guards that mention the paired
     tables/counters themselves (those legitimately change between the two halves of a pair)"""
+    set_fn(fn)
     ids = {id(n) for n in nodes}
     col = flow.Collect(F, fn, lambda n: id(n) in ids)
     col.run()
